@@ -16,9 +16,26 @@ const poolLib = `
 var zzLastVer = map[string]int64{}
 var zzRunOrder []string
 
+var zzVerMu sync.Mutex
+
+// zzFree / zzAdd read the pool's lists under the pool's own locks.
+func zzFree(gp *GenginePool) []*gengineWrapper {
+	gp.runningLock.Lock()
+	defer gp.runningLock.Unlock()
+	return append([]*gengineWrapper(nil), gp.freeGengines...)
+}
+
+func zzAdd(gp *GenginePool) []*gengineWrapper {
+	gp.additionLock.Lock()
+	defer gp.additionLock.Unlock()
+	return append([]*gengineWrapper(nil), gp.additionGengines...)
+}
+
 func zzVer(name string, v int64) {
+	zzVerMu.Lock() // rules of the concurrent models call this from several goroutines
 	zzLastVer[name] = v
 	zzRunOrder = append(zzRunOrder, name)
+	zzVerMu.Unlock()
 	vnd.Event(name + "#" + strconv.Itoa(int(v)))
 }
 
@@ -132,7 +149,7 @@ func zzMust(err error, what string) {
 `
 
 func poolHead() string {
-	return "package engine\n\nimport (\n\t\"strconv\"\n\n\t\"github.com/bilibili/gengine/builder\"\n\t\"github.com/bilibili/gengine/context\"\n\t\"github.com/bilibili/gengine/internal/base\"\n\t\"github.com/bilibili/gengine/zz_verif/vnd\"\n)\n\nvar _ = strconv.Itoa\nvar _ = context.NewDataContext\nvar _ *base.RuleEntity\nvar _ *builder.RuleBuilder\n"
+	return "package engine\n\nimport (\n\t\"strconv\"\n\t\"sync\"\n\n\t\"github.com/bilibili/gengine/builder\"\n\t\"github.com/bilibili/gengine/context\"\n\t\"github.com/bilibili/gengine/internal/base\"\n\t\"github.com/bilibili/gengine/zz_verif/vnd\"\n)\n\nvar _ = strconv.Itoa\nvar _ = context.NewDataContext\nvar _ *base.RuleEntity\nvar _ *builder.RuleBuilder\n"
 }
 
 // finishPoolFamily places the harness into package engine.
@@ -147,7 +164,7 @@ func finishPoolFamily(fam *Family, prop string, body string) {
 func genC10(tier string, seed int64) (*Family, error) {
 	fam := &Family{
 		Prop: "C10", Files: map[string]string{},
-		Bounds: map[string]interface{}{"front_end_outcomes": "all 8 combinations of lexer / grammar / listener error (symbolic)", "concrete_texts": "valid texts, a stray unlexable character at several places, deletion and duplication of every token of a 2-rule text, duplicate names, empty name, empty / blank text"},
+		Bounds: map[string]interface{}{"front_end_outcomes": "all 8 combinations of lexer / grammar / listener error (symbolic)", "concrete_texts": "valid texts, a stray unlexable character at several places, deletion and duplication of every token of a 2-rule text, duplicate names, empty name, empty / blank text, listener-level errors (integer / real overflow, empty map key, empty or duplicate rule name, salience overflow) before, inside and after a rule using every statement kind"},
 		Cfg:    interp.Config{MaxSteps: 6_000_000},
 		Functions: []string{"builder.RuleBuilder).BuildRuleFromString", "builder.RuleBuilder).BuildRuleWithIncremental", "engine.NewGenginePool", "engine.makeRuleBuilder",
 			"engine.GenginePool).UpdatePooledRules", "engine.GenginePool).UpdatePooledRulesIncremental", "engine.getKc", "engine.updateIncremental", "iparser.GengineErrorListener).SyntaxError"},
@@ -262,6 +279,41 @@ func M1_outcome() {
 		{"stray_backtick_last", good + " `", 1, "nil", "nil"},
 		{"salience_not_int", strings.Replace(good, "salience 7", "salience 99999999999999999999", 1), 1, "nil", "nil"},
 		{"unclosed_string", strings.Replace(good, "\"nb\"", "\"nb", 1), -1, "nil", "nil"},
+	}
+	// listener-level errors in front of, inside and behind a rule that uses every statement kind:
+	// whatever the listener does after its first error must not bring the front end down
+	richBody := func(first string, withRange bool) string {
+		t := " ver(\"k\", 2)\n" + first + " x = 1\n if x > 0 {\n  y = 2\n } else if x < 0 {\n  y = 3\n } else if x == 7 {\n  y = 5\n } else {\n  y = 4\n }\n" +
+			" for i = 0; i < 2; i += 1 {\n  if i == 1 {\n   continue\n  } else if i == 5 {\n   break\n  }\n }\n"
+		if withRange {
+			t += " forRange q := arr {\n  w = q\n  S.F = M[\"k\"]\n  o.Do(x, 1.5, \"s\", true)\n }\n"
+		}
+		return t + " conc {\n  a = 1\n  ver(\"k\", 2)\n }\n z = !(x > 3) && true\n return x + y * 2\n"
+	}
+	rich := func(first string, withRange bool) string {
+		return "rule \"k\" \"dk\" salience 2\nbegin\n" + richBody(first, withRange) + "end\n"
+	}
+	cases = append(cases, tc{"rich_valid", rich("", false), 0, "map[string]int64{\"k\": 2}", "map[string]int64{\"a\": 1, \"b\": 1, \"k\": 2}"})
+	stmtErrs := []struct{ id, stmt string }{
+		{"intoverflow", " big = 99999999999999999999\n"},
+		{"emptymapkey", " M[\"\"] = 1\n"},
+		{"realoverflow", " r = " + strings.Repeat("9", 400) + ".5\n"},
+	}
+	for _, e := range stmtErrs {
+		cases = append(cases,
+			tc{"lerr_" + e.id + "_inside", rich(e.stmt, true), 1, "nil", "nil"},
+			tc{"lerr_" + e.id + "_before", "rule \"p\" begin\n" + e.stmt + "end\n" + rich("", true), 1, "nil", "nil"},
+			tc{"lerr_" + e.id + "_after", rich("", true) + "rule \"p\" begin\n" + e.stmt + "end\n", 1, "nil", "nil"})
+	}
+	ruleErrs := []struct{ id, rules string }{
+		{"emptyname", "rule \"\" begin\n ver(\"e\", 2)\nend\n"},
+		{"dupname", "rule \"d\" begin\n ver(\"d\", 2)\nend\nrule \"d\" begin\n ver(\"d\", 3)\nend\n"},
+		{"salience", "rule \"p\" salience 99999999999999999999 begin\n ver(\"p\", 2)\nend\n"},
+	}
+	for _, e := range ruleErrs {
+		cases = append(cases,
+			tc{"lerr_" + e.id + "_before", e.rules + rich("", true), 1, "nil", "nil"},
+			tc{"lerr_" + e.id + "_after", rich("", true) + e.rules, 1, "nil", "nil"})
 	}
 	// token-level mutations of the good text
 	toks := strings.Fields(strings.NewReplacer("(", " ( ", ")", " ) ", ",", " , ").Replace(good))
